@@ -101,6 +101,7 @@ type circRun struct {
 	now     time.Time
 	log     []string // observations of the current event
 	timers  []func()
+	live    []*time.Timer
 	settled chan struct{}
 	hung    bool // a hand-over timed out: the rest of the history is not executed
 	calls   map[int]*callRt
@@ -139,10 +140,12 @@ func (h *circRun) Now() time.Time {
 
 func (h *circRun) AfterFunc(d time.Duration, f func()) *time.Timer {
 	h.mu.Lock()
+	t := hc.LiveTimer() // a timer the library has stopped does not fire
 	h.timers = append(h.timers, f)
+	h.live = append(h.live, t)
 	h.mu.Unlock()
 	h.add(fmt.Sprintf("OTimer %s", hc.Zi(int64(d))), evRec{Kind: "timer", D: d})
-	return nil
+	return t
 }
 
 func (h *circRun) add(s string, r evRec) {
@@ -728,12 +731,13 @@ func (h *circRun) do(o circOp) (out string, panicked bool) {
 		case "fire":
 			h.mu.Lock()
 			var f func()
+			var t *time.Timer
 			if int(o.D) < len(h.timers) {
-				f = h.timers[o.D]
+				f, t = h.timers[o.D], h.live[o.D]
 			}
 			h.mu.Unlock()
 			if f != nil {
-				f()
+				hc.FireTimer(t, f)
 			}
 		}
 		h.reading()
@@ -747,6 +751,13 @@ func (h *circRun) do(o circOp) (out string, panicked bool) {
 // finish releases every goroutine still parked so that nothing leaks between cases.
 func (h *circRun) finish() {
 	defer func() { _ = recover() }()
+	defer func() {
+		h.mu.Lock()
+		for _, t := range h.live {
+			t.Stop()
+		}
+		h.mu.Unlock()
+	}()
 	if h.hung {
 		for _, rt := range h.calls {
 			rt.cancel()
